@@ -210,13 +210,13 @@ func (g *gen) newAddr(wi *hist.WInfo, class uint16) error {
 }
 
 func (g *gen) block(ntx int, extra []*wire.MsgTx) (*massutil.Block, error) {
-	l0 := g.h.LogLen()
+	l0 := g.h.CfLogLen()
 	b := g.h.BuildBlock(ntx, extra)
 	defs := append([]string{}, g.h.Log[l0:]...)
 	if err := g.h.Attach(b); err != nil {
 		return nil, err
 	}
-	g.add(Op{Kind: OpAttach, Blk: b, Defs: defs, BlkID: g.h.BlockID(b)})
+	g.add(Op{Kind: OpAttach, Blk: b, Defs: defs, BlkID: g.h.CfBlockID(b)})
 	g.s.Stats.Blocks++
 	g.s.Stats.Txs += len(b.MsgBlock().Transactions)
 	return b, nil
@@ -224,7 +224,7 @@ func (g *gen) block(ntx int, extra []*wire.MsgTx) (*massutil.Block, error) {
 
 func (g *gen) announce(b *massutil.Block) {
 	g.h.W.Notify(b)
-	g.add(Op{Kind: OpAnnounce, Blk: b, BlkID: g.h.BlockID(b)})
+	g.add(Op{Kind: OpAnnounce, Blk: b, BlkID: g.h.CfBlockID(b)})
 }
 
 // Generate runs the history generator on a real wallet and records it as a script.
@@ -258,11 +258,11 @@ func Generate(seed uint64, n int, opt GenOptions) (*Script, error) {
 		}
 	}
 	if foreign != nil {
-		num := h.AddForeignWallet(foreign)
+		num := h.CfAddForeignWallet(foreign)
 		g.absent[num] = true
 		s.Wallets[num] = &WSpec{Num: num, ID: foreign.ID, Pass: foreign.Pass, Mnemonic: foreign.Mnemo, NAddr: len(foreign.Addrs), Foreign: true}
 		for _, a := range foreign.Addrs {
-			h.Emit("A %d %d", a.Sh, num)
+			h.CfEmit("A %d %d", a.Sh, num)
 		}
 	}
 	s.Header = append([]string{}, h.Log...)
